@@ -32,6 +32,7 @@ package mysql
 // Violations never fail the go test; they go to the vfev report (the driver turns them into exit 1).
 
 import (
+	"context"
 	"database/sql"
 	"database/sql/driver"
 	"encoding/json"
@@ -420,10 +421,13 @@ func vfTail(evs []vfEvent, n int) string {
 
 func vfSig(e vfEvent) string {
 	s := e.key()
-	if len(s) > 64 {
-		s = s[:64]
+	if len(s) > 56 {
+		s = s[:56]
+		if i := strings.LastIndexAny(s, " ,("); i > 30 {
+			s = s[:i]
+		}
 	}
-	return s
+	return strings.TrimRight(s, " ,(")
 }
 
 type vfDetail struct {
@@ -436,9 +440,96 @@ type vfDetail struct {
 	Events  []string `json:"events"`
 }
 
+// vfSink is what the oracle reports to: the vfev report, or a collector in the oracle self-test.
+type vfSink interface {
+	Fail(string)
+	DistinctN(int64)
+	Outcome(string)
+	Count(string, int64)
+	Violation(key, what string, detail any)
+}
+
+type vfCollect struct{ keys, fails []string }
+
+func (c *vfCollect) Fail(s string)                  { c.fails = append(c.fails, s) }
+func (c *vfCollect) DistinctN(int64)                {}
+func (c *vfCollect) Outcome(string)                 {}
+func (c *vfCollect) Count(string, int64)            {}
+func (c *vfCollect) Violation(key, _ string, _ any) { c.keys = append(c.keys, key) }
+
+// vfSelfTest shows that the oracle is not vacuous: four hand-written operations over the same fake
+// (one correct, three with exactly the defects the oracle is after) must be judged as expected.
+func vfSelfTest() error {
+	mk := func(name string, body func(tx *sqlx.Tx) error, rollbackOnErr bool) vfOp {
+		return vfOp{name: name, tx: true, run: func(a *adapter) (err error) {
+			tx, err := a.db.BeginTxx(context.Background(), nil)
+			if err != nil {
+				return err
+			}
+			defer func() {
+				if err != nil && rollbackOnErr {
+					tx.Rollback()
+				}
+			}()
+			if err = body(tx); err != nil {
+				return err
+			}
+			return tx.Commit()
+		}}
+	}
+	two := func(tx *sqlx.Tx) error {
+		if _, err := tx.Exec("UPDATE a SET x=1"); err != nil {
+			return err
+		}
+		_, err := tx.Exec("UPDATE b SET y=2")
+		return err
+	}
+	cases := []struct {
+		op   vfOp
+		want string // violation keys expected for a generic failure of an in-tx statement ($ = its signature), no timeout
+	}{
+		{mk("self-correct", two, true), ""},
+		{mk("self-leak", two, false), "self-leak:tx-left-open@$"},
+		{mk("self-swallow", func(tx *sqlx.Tx) error { two(tx); return nil }, true),
+			"self-swallow:error-swallowed@$ self-swallow:partial-commit@$"},
+		{vfOp{name: "self-partial", tx: true, run: func(a *adapter) error {
+			tx, err := a.db.BeginTxx(context.Background(), nil)
+			if err != nil {
+				return err
+			}
+			err = two(tx)
+			if cerr := tx.Commit(); err == nil {
+				err = cerr
+			}
+			return err
+		}}, "self-partial:partial-commit@$"},
+	}
+	for i := range cases {
+		c := &cases[i]
+		sink := &vfCollect{}
+		free, ok := vfBaseline(sink, &c.op)
+		if !ok || len(free) != 4 {
+			return fmt.Errorf("oracle self-test %s: baseline %v %v", c.op.name, free, sink.fails)
+		}
+		for k := 1; k <= 4; k++ {
+			sink = &vfCollect{}
+			out := vfExec(&c.op, k, vfGeneric, vfTimeoutCfgs[0])
+			vfJudge(sink, &c.op, k, vfGeneric, vfTimeoutCfgs[0], out, free)
+			want := ""
+			if k == 2 || k == 3 {
+				want = strings.ReplaceAll(c.want, "$", free[k-1])
+			}
+			if got := strings.Join(sink.keys, " "); got != want || len(sink.fails) > 0 {
+				return fmt.Errorf("oracle self-test %s k=%d: got [%s] %v, want [%s]", c.op.name, k, got, sink.fails, want)
+			}
+		}
+	}
+	return nil
+}
+
 // vfJudge applies the oracle to one executed fault plan. free = counted statement events of the
 // fault-free run (their key()), the reference for "took full effect".
-func vfJudge(rp *vfev.Report, op *vfOp, k int, kind vfKind, to vfTimeouts, out vfRun, free []string) {
+func vfJudge(rp vfSink, op *vfOp, k int, kind vfKind, to vfTimeouts, out vfRun, free []string) {
 	det := vfDetail{Op: op.name, K: k, Kind: kind.String(), Timeout: to.name, Err: fmt.Sprint(out.err),
 		InUse: out.inUse, Events: vfLog(out.events)}
 	if out.hit < 0 {
@@ -543,6 +634,8 @@ func vfJudge(rp *vfev.Report, op *vfOp, k int, kind vfKind, to vfTimeouts, out v
 		}
 	case "in-tx":
 		switch {
+		case closeAfter < 0 && commitAfter:
+			// closed by the COMMIT already reported as partial-commit
 		case closeAfter < 0:
 			// cannot happen when openTx is false; keep the oracle honest
 			report("tx-left-open", "no ROLLBACK or connection discard after the failing statement")
@@ -551,7 +644,6 @@ func vfJudge(rp *vfev.Report, op *vfOp, k int, kind vfKind, to vfTimeouts, out v
 			// transaction context (database/sql awaitDone), not by the adapter's rollback handler.
 			rp.Outcome("in-tx: error returned, closed only by context cancel after return")
 			rp.Count("closed_only_by_ctx_cancel", 1)
-			rp.Distinct("note:" + op.name + "@" + sig)
 			vfLatent[op.name+" @ "+sig] = true
 		case out.events[closeAfter].Op == "ROLLBACK":
 			rp.Outcome("in-tx: error returned, rolled back by the adapter")
@@ -574,7 +666,7 @@ func vfKeys(evs []vfEvent) []string {
 }
 
 // vfBaseline runs the operation fault-free under every timeout config and validates the rule table.
-func vfBaseline(rp *vfev.Report, op *vfOp) ([]string, bool) {
+func vfBaseline(rp vfSink, op *vfOp) ([]string, bool) {
 	var free []string
 	for i, to := range vfTimeoutCfgs {
 		out := vfExec(op, 0, vfNone, to)
@@ -632,6 +724,11 @@ func TestVerifC18SQLFaults(tt *testing.T) {
 		rp.Fail(err.Error())
 		return
 	}
+	if err := vfSelfTest(); err != nil {
+		rp.Fail(err.Error())
+		return
+	}
+	rp.Note("oracle self-test passed: hand-written leaking / swallowing / partially committing transactions are flagged, a correct one is not")
 	ops := vfOps()
 	kinds := []vfKind{vfGeneric, vfBadConn, vfDeadline}
 
